@@ -60,6 +60,7 @@ class StackWorld(object):
     self.events = 0
     self.membership = list(params.get('membership', []))    # pending membership events: ('leave', i) / ('join', i)
     self.closed = False
+    self.stalls = []      # (t_before, t_after) of preemptions: the loop was busy while virtual time passed
     H = hello()
     self.H = H
     world.SHIMS['aperture'].randint_domain = lambda a, b: [a] if b - a > 8 else list(range(a, b + 1))
@@ -133,6 +134,13 @@ class StackWorld(object):
       return 'error %s' % type(cur[1]).__name__
     return 'value %r AND error %s' % (cur[1], type(cur[2]).__name__)
 
+  def due_eff(self, due):
+    """If the loop was stalled (preempted) across the due time, the call cannot complete before the stall ends."""
+    for (a, b) in self.stalls:
+      if a - EPS <= due <= b + EPS:
+        due = max(due, b)
+    return due
+
   def at_quiescence(self):
     now = self.lp.now()
     if self.client is None and self.build_g.dead:
@@ -143,7 +151,7 @@ class StackWorld(object):
         self.v('STACK.build-failed', 'Build() raised %r' % (self.build_g.exception,))
     for c in self.calls:
       if c.ar is not None and not c.ar.ready() and c.timeout:
-        due = tick_up(c.t_issue + c.timeout)
+        due = self.due_eff(tick_up(c.t_issue + c.timeout))
         if now > due + EPS and not getattr(c, 'late_flagged', False):
           c.late_flagged = True
           self.v('C01.late', 'call %d(%r) issued at +%.4f with timeout %.4f is still pending at +%.4f (due by +%.4f)'
@@ -281,7 +289,7 @@ class StackWorld(object):
                   self.v('C12.no-discard', 'call %d(%r) timed out at +%.4f after its request (tag %d) had been written to open '
                          'connection c%d; no Tdiscarded naming tag %d reached the server (discards seen: %r)'
                          % (c.idx, c.arg, t_done - vloop.EPOCH, r['tag'], r['conn'], r['tag'], [d[1] for d in conn.peer.discards]))
-      if c.timeout and t_done > tick_up(c.t_issue + c.timeout) + EPS:
+      if c.timeout and t_done > self.due_eff(tick_up(c.t_issue + c.timeout)) + EPS:
         self.v('C01.late', 'call %d(%r) issued at +%.4f with timeout %.4f completed at +%.4f (due by +%.4f)'
                % (c.idx, c.arg, c.t_issue - vloop.EPOCH, c.timeout, t_done - vloop.EPOCH,
                   tick_up(c.t_issue + c.timeout) - vloop.EPOCH), issued_before_open=bool(c.issued_before_open), stack=self.p['stack'])
@@ -318,8 +326,23 @@ def run_exec(params, prefix, expect):
   world.set_chooser(ch)
   trace = []
   steps = 0
+  lp = vloop.loop()
+  preempts_left = params.get('max_preempt', 0)
   try:
     while True:
+      if preempts_left > 0:
+        # run the ready queue one callback at a time; between two callbacks the earliest timer may expire first
+        # (a preemption: the callbacks of a real loop take time, and libev runs an expired timer before them)
+        while not lp.quiescent():
+          t = lp.next_timer()
+          if preempts_left > 0 and t is not None and t.at <= w.horizon and len(lp._ready) > 0:
+            i = ch.choose(['next-callback', 'preempt: timer@%.6f expires now' % (t.at - vloop.EPOCH)], 'preempt')
+            if i == 1:
+              preempts_left -= 1
+              trace.append('PREEMPT timer@%.6f before %d pending callbacks' % (t.at - vloop.EPOCH, len(lp._ready)))
+              w.stalls.append((lp.now(), max(lp.now(), t.at)))
+              lp.fire(t, front=True)
+          vloop.run_ready(budget=1)
       vloop.run_ready()
       w.at_quiescence()
       alts = w.alternatives()
